@@ -573,6 +573,10 @@ def install(it):
 
     def np_allclose(it_, ctx, a, b, rtol=Fraction(1, 100000), atol=Fraction(1, 10**8), **kw):
         """all(|a - b| <= atol + rtol |b|) element-wise; shapes that do not broadcast raise"""
+        from . import absarr as _ab
+        if isinstance(a, _ab.AbsArr) or isinstance(b, _ab.AbsArr):
+            # the content of an abstract array is not known: the test can go either way
+            return ctx.fresh("allclose", z3.BoolSort())
         if isinstance(a, (list, tuple)):
             a = vec_from_nested(a)
         if isinstance(b, (list, tuple)):
@@ -602,6 +606,39 @@ def install(it):
             return it_.call(G["all"], [m], {}, ctx)
         return f(a, b)
     reg("allclose", np_allclose)
+
+    def np_gradient(it_, ctx, a, *varargs, **kw):
+        """np.gradient of a 1-D array with uniform spacing: central differences inside, one-sided at the two ends"""
+        if kw.get("edge_order", 1) != 1 or kw.get("axis") not in (None, 0, -1):
+            raise Unsupported("np.gradient options")
+        dx = varargs[0] if varargs else 1
+        if not is_scalar(dx):
+            raise Unsupported("np.gradient with coordinate arrays")
+        if isinstance(a, (list, tuple)):
+            a = vec_from_nested(a)
+        if isinstance(a, Vec) and a.ndim == 1:
+            n = len(a.data)
+            if n < 2:
+                raise_("ValueError", "Shape of array too small to calculate a numerical gradient")
+            d = a.data
+            out = [num_binop("/", num_binop("-", d[1], d[0]), dx)]
+            for i in range(1, n - 1):
+                out.append(num_binop("/", num_binop("-", d[i + 1], d[i - 1]), num_binop("*", 2, dx)))
+            out.append(num_binop("/", num_binop("-", d[n - 1], d[n - 2]), dx))
+            return Vec(out)
+        if isinstance(a, SymArr):
+            if not ctx.branch(num_cmp(">=", a.n, 2)):
+                raise_("ValueError", "Shape of array too small to calculate a numerical gradient")
+            e, n = a.elem, a.n
+
+            def g(i):
+                first = num_binop("/", num_binop("-", e(1), e(0)), dx)
+                last = num_binop("/", num_binop("-", e(num_binop("-", n, 1)), e(num_binop("-", n, 2))), dx)
+                mid = num_binop("/", num_binop("-", e(num_binop("+", i, 1)), e(num_binop("-", i, 1))), num_binop("*", 2, dx))
+                return z_ite(num_cmp("==", i, 0), first, z_ite(num_cmp("==", i, num_binop("-", n, 1)), last, mid))
+            return SymArr(n, g)
+        raise Unsupported("np.gradient of %r" % (a,))
+    reg("gradient", np_gradient)
 
     def np_isscalar(it_, ctx, x):
         return is_scalar(x) or isinstance(x, str)
